@@ -488,8 +488,11 @@ class RegexCompiler:
         # Emit body min_count times; every iteration starts with the captures
         # of the body cleared
         for _ in range(min_count):
+            before = self._current_offset()
             self._emit_capture_reset(capture_groups)
             self._compile_node(body)
+            if self._current_offset() == before:
+                break  # the body compiles to nothing: repeating it changes nothing
 
         # Then emit * for the rest
         self._compile_star(body, greedy, need_advance_check)
@@ -507,8 +510,11 @@ class RegexCompiler:
 
         # Required iterations
         for _ in range(min_count):
+            before = self._current_offset()
             self._emit_capture_reset(capture_groups)
             self._compile_node(body)
+            if self._current_offset() == before:
+                break  # the body compiles to nothing: repeating it changes nothing
 
         # Optional iterations nest: x{0,2} is (?:x(?:x)?)?.  Giving up one
         # iteration gives up the later ones too, so every split leaves to the
